@@ -24,7 +24,7 @@ IsEvent(kind) == l <= Len(Rec) /\ Rec[l].k = kind /\ ~Has(Rec[l], "force") /\ ~H
 Aff(rep) == ToAffine(rep)
 RepOK(rep) == Len(rep) = 4 /\ (\A i \in 1..4 : NLess(rep[i], P)) /\ ExtOK(rep)
 NoLazy == [st |-> "none"]
-RInit == l = 1 /\ lz = NoLazy /\ cost = [dec |-> -1, enc |-> -1] /\ shape = {}
+RInit == l = 1 /\ lz = NoLazy /\ cost = [dec |-> -1, enc |-> -1, D |-> -1, N |-> -1, P |-> -1, M |-> -1] /\ shape = {}
 TReset == IsEvent("reset") /\ lz' = NoLazy /\ UNCHANGED <<cost, shape>>
 
 \* ---- what a gadget must compute ------------------------------------------------
@@ -112,18 +112,29 @@ TLazyNew == IsEvent("lazy_new") /\ LET e == Rec[l] IN
 LzEnc == IF lz.from = "encoding" THEN lz.s ELSE EncodeSpec(lz.pt)
 LzElt == IF lz.from = "encoding" THEN DecodeSpec(lz.s) ELSE lz.pt
 Bind(c, field, delta) == IF c[field] = -1 THEN [c EXCEPT ![field] = delta] ELSE c
+GenPt == DecodeSpec(FOfNat(8))
+IsMutator(op) == op \in {"D", "N", "P", "M"}
+Mutated(op, pt) == CASE op = "D" -> EDbl(pt) [] op = "N" -> ENeg(pt) [] op = "P" -> EAdd(pt, GenPt) [] op = "M" -> ESub(pt, GenPt)
 TLazyOp == IsEvent("lazy_op") /\ LET e == Rec[l] IN
              /\ lz.st \in LazyStates
-             /\ LET wantsEnc == e.op = "C"
-                    st2 == IF wantsEnc THEN LazyAfterForceEncoding(lz.st) ELSE LazyAfterForceElement(lz.st)
-                    delta == e.nc - lz.nc
-                    field == IF wantsEnc THEN "enc" ELSE "dec"
-                IN /\ IF st2 = lz.st THEN delta = 0 /\ e.nw = lz.nw /\ cost' = cost     \* repeated forcing emits nothing
-                      ELSE delta > 0 /\ cost' = Bind(cost, field, delta) /\ cost'[field] = delta
-                   /\ lz' = [lz EXCEPT !.st = st2, !.nc = e.nc, !.nw = e.nw]
-                   \* the values never change
-                   /\ (e.op = "C") => (Has(e.val, "fq") /\ e.val.fq = LzEnc)
-                   /\ (e.op = "V" /\ lz.valid) => (Has(e.val, "elt") /\ Len(e.val.elt) = 4 /\ SameElement(LzElt, Aff(e.val.elt)))
+             /\ IF IsMutator(e.op)
+                THEN \* in-place group operation: forces the element, then the variable denotes the NEW element only
+                     /\ lz.valid
+                     /\ LET delta == e.nc - lz.nc
+                            forced == IF lz.st = "Encoding" THEN cost.dec ELSE 0
+                        IN IF lz.st = "Encoding" /\ cost.dec = -1 THEN delta >= 0 /\ cost' = cost
+                           ELSE delta >= forced /\ cost' = Bind(cost, e.op, delta - forced) /\ cost'[e.op] = delta - forced
+                     /\ lz' = [lz EXCEPT !.st = "Element", !.from = "element", !.pt = Mutated(e.op, LzElt), !.nc = e.nc, !.nw = e.nw]
+                ELSE LET wantsEnc == e.op = "C"
+                         st2 == IF wantsEnc THEN LazyAfterForceEncoding(lz.st) ELSE LazyAfterForceElement(lz.st)
+                         delta == e.nc - lz.nc
+                         field == IF wantsEnc THEN "enc" ELSE "dec"
+                     IN /\ IF st2 = lz.st THEN delta = 0 /\ e.nw = lz.nw /\ cost' = cost     \* repeated forcing emits nothing
+                           ELSE delta > 0 /\ cost' = Bind(cost, field, delta) /\ cost'[field] = delta
+                        /\ lz' = [lz EXCEPT !.st = st2, !.nc = e.nc, !.nw = e.nw]
+                        \* the values never change, and they are the values of the CURRENT element
+                        /\ (e.op = "C") => (Has(e.val, "fq") /\ e.val.fq = LzEnc)
+                        /\ (e.op = "V" /\ lz.valid) => (Has(e.val, "elt") /\ Len(e.val.elt) = 4 /\ SameElement(LzElt, Aff(e.val.elt)))
              /\ UNCHANGED shape
 TLazyEnd == IsEvent("lazy_end") /\ LET e == Rec[l] IN
               /\ lz.st \in LazyStates /\ e.nc = lz.nc
